@@ -59,6 +59,10 @@ func (k Keeper) SendNftTransfer(
 		if err != nil {
 			return err
 		}
+	} else if strings.Contains(class, DELIMITER) {
+		// a native class is the base class of every class path derived from it: if it
+		// contained the path delimiter it could not be told apart from a voucher's class path
+		return errorsmod.Wrapf(types.ErrInvalidDenom, "native class %s must not contain %s", class, DELIMITER)
 	}
 
 	labels := []metrics.Label{
